@@ -85,6 +85,36 @@ VM2 = markupsafe.Markup("<u>&gt;</u>")
 VM3 = markupsafe.Markup("<s>&#233;</s>")
 
 
+class _Box:
+    """box.put(a, b) -> b, remembering a; box.pop() -> the remembered a (then forgets it).
+    Lets an expression run something (a def, a capture, a second template) while it is being
+    evaluated and still show both results in the output."""
+
+    slot = ""
+
+    def put(self, a, b):
+        self.slot = a
+        return b
+
+    def pop(self):
+        s, self.slot = self.slot, ""
+        return s
+
+    def __repr__(self):
+        return "box"
+
+
+box = _Box()
+
+# byte strings whose text differs under the three decodings (nested-pipeline family)
+_WU = ["café €", "naïve ¥", "Ωmega ж", "日本 é"]
+_WL = ["crème", "señor", "Grüße", "façade"]
+_WA = ["cafe E", "plain Y", "omega Z", "nihon e"]
+NU0, NU1, NU2, NU3 = [w.encode("utf-8") for w in _WU]
+NL0, NL1, NL2, NL3 = [w.encode("latin-1") for w in _WL]
+NA0, NA1, NA2, NA3 = [w.encode("ascii") for w in _WA]
+
+
 def resolve(ctx):
     """rebuild a render context from its JSON form ("@helper:<name>" -> object of this module)"""
     out = {}
